@@ -50,9 +50,13 @@ def constLine (cs : List Char) : String :=
   else
     let isHex := match cs with | '0' :: 'x' :: _ => true | '0' :: 'X' :: _ => true | _ => false
     let isFloat := cs.any (· == '.') || (!isHex && cs.any (fun c => c == 'e' || c == 'E')) || (isHex && cs.any (fun c => c == 'p' || c == 'P'))
-    if isFloat then s!"{bkName (floatConstType (scan {} cs))} -"
+    if isFloat then
+      -- specification (6.4.4.2p4), read off the spelling independently: the suffix is the last character
+      let spec := match cs.getLast? with
+        | some 'f' => BK.Float | some 'F' => BK.Float | some 'l' => BK.LongDouble | some 'L' => BK.LongDouble | _ => BK.Double
+      s!"{bkName (floatConstType (scanNum cs))} {bkName spec}"
     else
-      let fl := scan {} cs
+      let fl := scanNum cs
       let sfx := intSuffix fl
       let v := stoull0 cs
       let oh := octOrHex cs
